@@ -450,6 +450,8 @@ class Executor:
             return f.fn(self, n, args, kwargs)
         if isinstance(f, Closure):
             return self.invoke(f, args, kwargs, n)
+        if isinstance(f, Obj) and isinstance(f.fields.get("__call__"), Prim):
+            return f.fields["__call__"].fn(self, n, args, kwargs)
         fail(n, "call of an unknown function")
 
     def invoke(self, f: Closure, args, kwargs, n):
